@@ -112,7 +112,27 @@ fn roundtrip(rng: &mut Rng, k: u64) {
         }};
     }
     match k {
-        0 => finish!(gen_num(rng, 128), |n| unsigned_fixed_to_decimal(n, decimals), decimal_to_value, decimals),
+        0 => {
+            // besides the generic mixture: exactly representable values above 2^96-1
+            // (q * 10^e with a 29-digit q that fits 96 bits), with few decimals (rejected although
+            // representable) or above i128::MAX (exact Decimal that cannot come back)
+            let (n, decimals) = match rng.below(8) {
+                0 => {
+                    let e = rng.range(1, 9) as u32;
+                    let q = 10u128.pow(28) + rng.next128() % (MAX_REPR - 10u128.pow(28) + 1);
+                    (q * 10u128.pow(e), rng.range(0, e as u64 + 1) as u8)
+                }
+                1 => {
+                    let e = rng.range(10, 11) as u32;
+                    let q = rng.next128() % 10u128.pow(28);
+                    (q.checked_mul(10u128.pow(e)).unwrap_or(3 * 10u128.pow(38)), rng.range(e as u64, 30) as u8)
+                }
+                _ => (gen_num(rng, 128), decimals),
+            };
+            finish!(n, |n| unsigned_fixed_to_decimal(n, decimals), decimal_to_value, decimals);
+            emit_rt(k, &num_s, decimals, &f, &back, back_tag);
+            return;
+        }
         1 => {
             let m = gen_num(rng, 128);
             let n: i128 = if m > i128::MAX as u128 { i128::MIN.wrapping_add((m & 3) as i128 - 0) } else if neg { -(m as i128) } else { m as i128 };
@@ -131,14 +151,18 @@ fn roundtrip(rng: &mut Rng, k: u64) {
             finish!(n, |n| Some(signed_value_to_decimal(n)), decimal_to_signed_value, 20u8)
         }
     }
-    let ftag = match &f {
+    emit_rt(k, &num_s, decimals, &f, &back, back_tag);
+}
+
+fn emit_rt(k: u64, num_s: &str, decimals: u8, f: &Option<Option<Decimal>>, back: &str, back_tag: &str) {
+    let ftag = match f {
         Some(Some(_)) => "some",
         Some(None) => "none",
         None => "panic",
     };
     emit(
         &format!("rt{k}/{ftag}-{back_tag}"),
-        &format!("Rt {k} {num_s} {decimals} {} {back}", fwd_term(&f)),
+        &format!("Rt {k} {num_s} {decimals} {} {back}", fwd_term(f)),
     );
 }
 
